@@ -211,7 +211,7 @@ pub fn run(cx: &mut Ctx) {
     }
     if !miri {
         // inputs of 1 MiB and more: few symbols (every trigram occurs many times inside one period)
-        let big: &[(usize, usize, usize)] = if cx.a.quick() { &[(1000, (1 << 20) + 5, 4), (3000, (1 << 20) + 4100, 5)] } else { &[(1000, (1 << 20) + 5, 4), (3000, (1 << 20) + 4100, 5), (300, 1_300_000, 4), (4001, 2_100_000, 5), (2049, 10_000_000, 0), (2500, 16_000_000, 0)] };
+        let big: &[(usize, usize, usize)] = if cx.a.quick() { &[(1000, (1 << 20) + 5, 4), (3000, (1 << 20) + 4100, 5)] } else { &[(1000, (1 << 20) + 5, 4), (3000, (1 << 20) + 4100, 5), (300, 1_300_000, 4), (4001, 2_100_000, 5), (2049, 10_000_000, 0), (2500, 16_000_000, 0), (7, 0xFF_FFFF, 0), (15, 0xFF_FFFF, 2), (3001, 9_000_000, 0)] };
         for &(p, n, kind) in big {
             cx.case("inputs_of_1MiB_and_more", |c| {
                 c.sit("inputs_of_1MiB_and_more");
